@@ -46,6 +46,7 @@ def main():
     ok = bool(conf.get("with")) and bool(conf.get("without")) and any("FAILED" in x or "failed" in x for x in conf["with"]) and \
         all("FAILED" not in x for x in conf["without"])
     meta = {"property": prop, "patch": "patch.diff", "demo": "demo.diff", "expect_key": expect, "caught_by": caught,
+            "status": "not-decided" if caught == "not-decided" else "caught",
             "demo_test": demo, "confirmed": ok, "confirmation": conf, "summary": summary,
             "origin": "sub-agent given only the property text and a scratch worktree"}
     json.dump(meta, open(os.path.join(d, "meta.json"), "w"), indent=1)
